@@ -150,7 +150,7 @@ func runC19Conc(cs ConcCase, prefix []int, expect [][]string) *concExec {
 	self := selfGID()
 	base := goroutines()
 	h := &crash.Hook{Track: true}
-	w, err := world.New(world.Config{Hold: cs.Hold,
+	w, err := world.New(world.Config{Hold: cs.Hold, Parallel: true,
 		StoreBuilder: crash.StoreBuilder{Inner: &store.OnDiskStoreBuilder{}, H: h},
 		DBCI:         crash.CI{Inner: gluon.VerifSQLiteClientInterface(), H: h}})
 	if err != nil {
